@@ -389,6 +389,42 @@ func C10(c *run.Check) {
 		})
 		c.Set("wide_element_traces", len(jobs))
 	}
+	// long documents: EVERY number of items from 1 to 1100 (and a few larger
+	// ones) in three shapes, with the full tree comparison - node identity, Pos,
+	// Parent, content - so that nothing that depends on how many nodes a document
+	// has (a buffer, slab or table of some fixed size) goes unnoticed
+	if c.Violations() == 0 {
+		type lj struct{ shape, k int }
+		var jobs []lj
+		maxK := 1100
+		for k := 1; k <= maxK; k++ {
+			for shape := 0; shape < 3; shape++ {
+				if shape == 2 && k > 600 {
+					continue
+				}
+				jobs = append(jobs, lj{shape, k})
+			}
+		}
+		for _, k := range []int{2049, 4097, 65537} {
+			jobs = append(jobs, lj{0, k}, lj{1, k})
+		}
+		run.ParallelW(len(jobs), func(_, i int) {
+			if c.Violations() > 0 || c.TimeUp() {
+				return
+			}
+			tr := c10LongTrace(jobs[i].shape, jobs[i].k)
+			c.Transitions.Add(1)
+			c.Evaluations.Add(1)
+			c.Traces.Add(1)
+			if msg := C10CheckTrace(tr); msg != "" {
+				if len(msg) > 600 {
+					msg = msg[:600] + " ..."
+				}
+				c.Violation(map[string]interface{}{"long": jobs[i].shape, "items": jobs[i].k}, fmt.Sprintf("long document, shape %d (%s), %d items: %s", jobs[i].shape, []string{"<i a=..>text</i> items", "text/comment/PI/empty-element leaves", "one element with k attributes"}[jobs[i].shape], jobs[i].k, msg))
+			}
+		})
+		c.Set("long_document_traces", len(jobs))
+	}
 	// large flat / deep streams in a subprocess (a stack overflow kills the process)
 	if c.Violations() == 0 {
 		sizes := []int{1000, 100000, 1000000}
@@ -416,6 +452,41 @@ func C10(c *run.Check) {
 		c.Set("large_streams", fmt.Sprint(sizes, " x {flat text, sibling elements, nested(<=1e5)} under a 64 MB goroutine stack limit"))
 	}
 	c.Assume("event alphabet of 14 events (plus the wide-element family); a prefix is declared at most twice and an attribute name at most once per element; namespace and attribute events only inside elements")
+}
+
+// c10LongTrace builds a document of k items: shape 0 - k elements with an
+// attribute and a text child; shape 1 - k leaves of rotating kinds (text is
+// separated by other kinds, adjacent text events never occur); shape 2 - one
+// element with k attributes followed by a sibling.
+func c10LongTrace(shape, k int) []impl.Event {
+	end := impl.Event{K: impl.EvEnd}
+	tr := []impl.Event{{K: impl.EvStart, Local: "r"}}
+	switch shape {
+	case 0:
+		for i := 0; i < k; i++ {
+			tr = append(tr, impl.Event{K: impl.EvStart, Local: "i"}, impl.Event{K: impl.EvAttr, Local: "a", Value: fmt.Sprint(i)}, impl.Event{K: impl.EvText, Value: fmt.Sprint("v", i)}, end)
+		}
+	case 1:
+		for i := 0; i < k; i++ {
+			switch i % 4 {
+			case 0:
+				tr = append(tr, impl.Event{K: impl.EvText, Value: fmt.Sprint("t", i)})
+			case 1:
+				tr = append(tr, impl.Event{K: impl.EvComment, Value: fmt.Sprint("c", i)})
+			case 2:
+				tr = append(tr, impl.Event{K: impl.EvPI, Local: "p", Value: fmt.Sprint(i)})
+			case 3:
+				tr = append(tr, impl.Event{K: impl.EvStart, Local: "e"}, end)
+			}
+		}
+	case 2:
+		tr = append(tr, impl.Event{K: impl.EvStart, Local: "w"})
+		for i := 0; i < k; i++ {
+			tr = append(tr, impl.Event{K: impl.EvAttr, Local: fmt.Sprint("a", i), Value: fmt.Sprint(i)})
+		}
+		tr = append(tr, impl.Event{K: impl.EvText, Value: "t"}, end, impl.Event{K: impl.EvStart, Local: "after"}, impl.Event{K: impl.EvAttr, Local: "x", Value: "1"}, end)
+	}
+	return append(tr, end)
 }
 
 // C10Stream is the subprocess body for large streams.
